@@ -301,6 +301,15 @@ func (g *Storage) RemoveBlobs(ctx context.Context, blobs []blob.Ref) error {
 		g.log("RemoveBlobs", n, "injected", Event{"bs": g.rks(blobs)})
 		return ErrInjected
 	}
+	if kind == "partial" {
+		// only the first half of the blobs is removed before the failure / death
+		h := (len(blobs) + 1) / 2
+		for _, br := range blobs[:h] {
+			g.B.Del(br)
+		}
+		g.log("RemoveBlobs", n, "injected-partial", Event{"bs": g.rks(blobs), "done": g.rks(blobs[:h])})
+		return ErrInjected
+	}
 	for _, br := range blobs {
 		g.B.Del(br)
 	}
